@@ -123,6 +123,10 @@ def check_remove(ctx, case):
                     ctx.fail(f"{lab} raised {o.etype}", case, {"msg": str(o.exc)[:200]})
                     return
                 obs = o.value.ballots if kind == "profile" else o.value
+                if any(b.weight != 0 for b in obs if not b.ranking and not b.scores):
+                    ctx.fail(f"{lab}: a ballot that lists nobody carries weight in the result (votes created on an exhausted ballot)", case,
+                             {"weights": [str(b.weight) for b in obs if not b.ranking and not b.scores]})
+                    return
                 if has_scores:
                     ctx.count("remove_cand_scored_calls")
                     got2 = {k: v for k, v in ms2(obs).items() if k[0] or k[1]}
@@ -408,6 +412,13 @@ def run(ctx):
                     b["r"] = None
                 elif t2 < 0.3 and b.get("r"):
                     b["r"] = b["r"][:1]
+        if rnd.random() < 0.15:
+            # ballots that are already blank on input (no ranking, no scores), with any weight: they stay exhausted
+            rspec = {"cands": list(rspec["cands"]), "ballots": [dict(b) for b in rspec["ballots"]]}
+            for _ in range(rnd.randint(1, 2)):
+                rspec["ballots"].insert(rnd.randrange(len(rspec["ballots"]) + 1),
+                                        {"r": rnd.choice([None, []]), "w": canon.fs(rnd.choice([F(5, 2), F(0), F(1), F(3)]))})
+            ctx.count("blank_input_ballots")
         ctx.guard("remove", check_remove, ctx, {"kind": "remove", "profile": rspec, "remove": rem, "as_str": rnd.random() < 0.3})
         if i % 2 == 0:
             ctx.guard("add_missing", check_add_missing, ctx, {"kind": "add_missing", "profile": spec})
